@@ -169,6 +169,8 @@ def run(ctx):
             continue
         # function-name guessing (an IDENTIFIER before a left fence) and mi-sequence merging are outside the model; a number before a fence is plain implied multiplication
         in_guard = not any((r[i][0] == "mi" and r[i + 1][0] == "mo" and r[i + 1][1] in opsets["left"]) or (r[i][0] == "mi" and r[i + 1][0] == "mi") for i in range(len(r) - 1))
+        # mixed fractions (an integer directly followed by a linear fraction of numbers, '10 3/3': invisible plus instead of times) are outside the model too
+        in_guard = in_guard and not any(r[i][0] == "mn" and r[i + 1][0] == "mn" and r[i + 2] == ("mo", "/") and r[i + 3][0] == "mn" for i in range(len(r) - 3))
         n_in_guard += 1 if in_guard else 0
         if not in_guard:
             pass        # function-name guessing (identifier before a left fence) and mi-sequence merging are outside the model
